@@ -342,6 +342,64 @@ fn walks_with_vanishing_dirs(cfg: &Cfg, trees: &[Vec<(String, Node)>], init_base
     runs
 }
 
+/// Write sessions observed while the handle is still open: after opening it, after a write,
+/// after a flush and after the drop the sync and the async world must show the same length and
+/// bytes to a fresh reader.
+fn session_phases(cfg: &Cfg, base: usize, vio: &mut Vec<Violation>) -> u64 {
+    use async_std::io::WriteExt;
+    use std::io::Write;
+    let mut runs = 0u64;
+    for prior in [None, Some(&b""[..]), Some(&b"old bytes"[..])] {
+        for append in [false, true] {
+            let init: Init = match prior {
+                Some(b) => vec![(base, vec![("/f".to_string(), Node::File(b.to_vec()))])],
+                None => vec![],
+            };
+            let sb = build(cfg, Order::Asc, &init);
+            let ab = abuild(cfg, Order::Asc, &init);
+            let sp = sb.root.join("f").unwrap();
+            let ap = ab.root.join("f").unwrap();
+            let observe_s = || (PathApi::exists(&sp).ok(), PathApi::metadata(&sp).ok().map(|m| m.len), PathApi::read_all(&sp).ok());
+            let observe_a = || {
+                let x = ABlock(ap.clone());
+                (x.exists().ok(), x.metadata().ok().map(|m| m.len), x.read_all().ok())
+            };
+            let mut sh = if append { sp.append_file().ok() } else { sp.create_file().ok() };
+            let mut ah = block_on(async { if append { ap.append_file().await.ok() } else { ap.create_file().await.ok() } });
+            let mut phases: Vec<(&str, _, _)> = vec![];
+            runs += 1;
+            if sh.is_some() != ah.is_some() {
+                vio.push(Violation { property: "C15".into(), signature: format!("async {}|write-session|open-outcome-differs", cfg.label()), summary: format!("{} on {} with prior {:?}: sync opened = {}, async opened = {}", if append { "append_file" } else { "create_file" }, cfg.label(), prior, sh.is_some(), ah.is_some()), replay: json!({"engine": "session-phases"}) });
+                continue;
+            }
+            phases.push(("after-open", observe_s(), observe_a()));
+            if let (Some(s), Some(a)) = (sh.as_mut(), ah.as_mut()) {
+                let _ = s.write_all(b"new");
+                let _ = block_on(a.write_all(b"new"));
+                // (what a reader sees between a write and the next flush is up to the handle's
+                // buffering - async-std's File buffers, std's does not - and is not compared)
+                let _ = s.flush();
+                let _ = block_on(a.flush());
+                phases.push(("after-flush", observe_s(), observe_a()));
+            }
+            drop(sh);
+            drop(ah);
+            phases.push(("after-drop", observe_s(), observe_a()));
+            for (name, s, a) in phases {
+                if s != a {
+                    vio.push(Violation {
+                        property: "C15".into(),
+                        signature: format!("async {}|write-session|{}|{}|{}", cfg.label(), if append { "append" } else { "create" }, match prior { None => "prior=absent", Some(b) if b.is_empty() => "prior=empty", _ => "prior=bytes" }, name),
+                        summary: format!("{} session on {} (prior content {:?}), {}: a fresh observation shows (exists, len, bytes) = {:?} in the sync world and {:?} in the async world", if append { "append" } else { "create" }, cfg.label(), prior.map(String::from_utf8_lossy), name, s, a),
+                        replay: json!({"engine": "session-phases", "configuration": cfg.label(), "append": append, "prior": prior, "phase": name}),
+                    });
+                }
+            }
+        }
+    }
+    runs
+}
+
 pub fn run_c15(ctx: &Ctx) -> i32 {
     let info = ctx.info("C15", "model_checking");
     let thorough = ctx.tier == Tier::Thorough;
@@ -398,6 +456,12 @@ pub fn run_c15(ctx: &Ctx) -> i32 {
     let vr2 = walks_with_vanishing_dirs(&Cfg::alt(Cfg::Mem, "/Z"), &small, 0, false, &mut vio);
     let vr3 = walks_with_vanishing_dirs(&ov, &small, 1, thorough, &mut vio);
     quiet.say(&format!("  [walks with a directory vanishing at every walker position, sync vs async (+1 Pending at every await point)] runs={}", vr1 + vr2 + vr3));
+    // (e) write sessions observed while the handle is open
+    let mut sr = 0;
+    for (cfg, base) in [(Cfg::Mem, 0), (Cfg::alt(Cfg::Mem, "/Z"), 0), (ov.clone(), 0), (ov.clone(), 1), (Cfg::Phys, 0)] {
+        sr += session_phases(&cfg, base, &mut vio);
+    }
+    quiet.say(&format!("  [write sessions observed at open / write / flush / drop, sync vs async] sessions={}", sr));
     let mut ps3 = PlanStats { runs: 0, points: 0, classes: BTreeMap::new() };
     if thorough {
         let big: Vec<Vec<(String, Node)>> = trees_over(&u23().paths, b"x").into_iter().filter(|t| t.len() >= 9).take(40).collect();
